@@ -24,6 +24,14 @@ def read_ndjson(path):
         return [json.loads(l) for l in f if l.strip()]
 
 
+def iter_ndjson(path):
+    """streams the records of a (possibly very large) file"""
+    with open(path) as f:
+        for l in f:
+            if l.strip():
+                yield json.loads(l)
+
+
 def write_ndjson(path, recs):
     with open(path, "w") as f:
         for r in recs:
@@ -181,28 +189,42 @@ class Ctx:
     def validate(self, events_path, chunk=25000, jvms=4, workers=4):
         """Trace validation (fan-out): returns (mismatches, u1_ids, n_events).  Each mismatch is a dict with
         the event (`event`) and TLC's report (`what`, `detail`)."""
-        evs = read_ndjson(events_path)
-        n = len(evs)
+        # the events are streamed into chunk files (thorough tiers have millions of them; only the events that TLC
+        # reports on are parsed here)
+        cfg = write_cfg(self.path("Validate.cfg"), VALIDATE_CFG)
+        chunk_paths, sizes = [], []
+        out = None
+        n = 0
+        with open(events_path) as f:
+            for l in f:
+                if not l.strip():
+                    continue
+                if n % chunk == 0:
+                    if out:
+                        out.close()
+                    cp = self.path("%s.chunk%d" % (os.path.basename(events_path), len(chunk_paths)))
+                    out = open(cp, "w")
+                    chunk_paths.append(cp)
+                    sizes.append(0)
+                out.write(l if l.endswith("\n") else l + "\n")
+                sizes[-1] += 1
+                n += 1
+        if out:
+            out.close()
         if n == 0:
             return [], [], 0
-        chunks = [evs[i:i + chunk] for i in range(0, n, chunk)]
-        cfg = write_cfg(self.path("Validate.cfg"), VALIDATE_CFG)
-        results = [None] * len(chunks)
+        results = [None] * len(chunk_paths)
 
         def run(ci):
-            cp = self.path("%s.chunk%d" % (os.path.basename(events_path), ci))
-            write_ndjson(cp, chunks[ci])
-            r = tlc("Validate", cfg, self.work, env={"TRACE": cp}, workers=workers, timeout=3600, keep_lines=False)
-            os.remove(cp)
-            expect = 1 + K_FANOUT + len(chunks[ci])
-            if len(chunks[ci]) < K_FANOUT:
-                expect = 1 + K_FANOUT + len(chunks[ci])
+            cp = chunk_paths[ci]
+            r = tlc("Validate", cfg, self.work, env={"TRACE": cp}, workers=workers, timeout=7200, keep_lines=False)
+            expect = 1 + K_FANOUT + sizes[ci]
             if r.distinct != expect:
                 raise ToolError("validation incomplete: %d distinct states, expected %d (%s)" % (r.distinct, expect, cp))
             return r
 
         with concurrent.futures.ThreadPoolExecutor(max_workers=jvms) as ex:
-            futs = {ex.submit(run, ci): ci for ci in range(len(chunks))}
+            futs = {ex.submit(run, ci): ci for ci in range(len(chunk_paths))}
             for f in concurrent.futures.as_completed(futs):
                 results[futs[f]] = f.result()
         mism, u1 = [], []
@@ -211,12 +233,19 @@ class Ctx:
             self.transitions += r.generated
             if ci == 0:
                 self.tlc_cmds.append("TRACE=<events> " + r.cmd)
+            wanted = {o["mismatch"] for o in r.json if "mismatch" in o} | {o["u1"] for o in r.json if "u1" in o}
+            evs = {}
+            if wanted:
+                with open(chunk_paths[ci]) as f:
+                    for k, l in enumerate(f, 1):
+                        if k in wanted:
+                            evs[k] = json.loads(l)
             for o in r.json:
                 if "mismatch" in o:
-                    ev = chunks[ci][o["mismatch"] - 1]
-                    mism.append({"event": ev, "what": o["what"], "detail": o["detail"]})
+                    mism.append({"event": evs[o["mismatch"]], "what": o["what"], "detail": o["detail"]})
                 elif "u1" in o:
-                    u1.append(chunks[ci][o["u1"] - 1].get("id"))
+                    u1.append(evs[o["u1"]].get("id"))
+            os.remove(chunk_paths[ci])
         self.validated += n
         return mism, u1, n
 
@@ -321,7 +350,10 @@ def build_harness(features=(), profile="release"):
     # keep one binary per feature set (cargo overwrites the same path)
     tag = ("-".join(features) or "default") + "-" + profile
     dst = os.path.join(HARNESS, "target", "verif-harness-" + tag)
-    shutil.copy2(src, dst)
+    # atomic replace: a check that is still running the previous binary keeps its inode
+    tmp = dst + ".%d.tmp" % os.getpid()
+    shutil.copy2(src, tmp)
+    os.replace(tmp, dst)
     log("harness built (%s) in %.1fs" % (tag, time.time() - t0))
     _built[key] = dst
     return dst
